@@ -49,12 +49,12 @@ the unchanged tree, and no check reports a violation on the unchanged tree.
 
 **Behaviour-preserving changes** (`seeded/benign/c1…c8`, produced by an independent sub-agent told to refactor without
 changing behaviour in the ZDD crate, `window.rs` and `validate_path`; evaluated by `lib/run_benign.py`, results in
-`seeded/benign_results.json`): **no false alarm**. Six of the eight leave every affected check at exit 0 (always-true
+`seeded/benign_results.json`): **no false alarm**. Seven of the eight leave every affected check at exit 0 (always-true
 `debug_assert!`s, `get_or_insert`, swapped independent statements, split conditions with mirrored comparisons, renamed
-locals, inverted guard). Two end as *undecided* (exit 2) for C06/C07: turning the `if let … return` in
-`UniqueTable::get_or_create` into a `match` (a proof hint is anchored before the `return` statement that no longer
-exists) and extracting `sorted_unique` in `zdd.rs` (a new callee without contract: havoc, callers not provable, no failing
-input ⇒ "contract for the new function needed"). The renaming of locals in `validate_path` was *undecided* at first because
+locals, inverted guard, `if let … return` turned into a `match`). One ends as *undecided* (exit 2) for C06/C07:
+extracting `sorted_unique` in `zdd.rs` (a new callee without contract: havoc, callers not provable, no failing input ⇒
+"contract for the new function needed"). The `match` form of `UniqueTable::get_or_create` was *undecided* at first — the
+ref-pattern rule R1 knew `if let Some(&x) = e {` only and mis-read the `=` of `=>`; R1 now also covers match arms. The renaming of locals in `validate_path` was *undecided* at first because
 the C31 proof named two locals in a hint; the existential of the contract now finds its witness through the term the
 `is_absolute` call leaves behind, and no local is named any more.
 
